@@ -1,20 +1,22 @@
 #!/usr/bin/env python3
-"""Reads run/mutants.log lines `<P> <i> CONFIRM {json} CHECK <text>` and keeps every confirmed mutant
-(suite green with change, demo fails with / passes without) under seeded/, recording the check outcome."""
-import json, re, subprocess, sys, os
-for line in open("/verif/run/mutants.log"):
-    m = re.match(r"(C\d+) (\d) CONFIRM (\{.*?\}) CHECK (.*)$", line.strip())
+"""tools/keep_from_log.py [logfile]  Reads lines `<P> <tag><i> <mutout> CONFIRM {json} CHECK <text>` and keeps
+every confirmed mutant (suite green with change, demo fails with / passes without) under
+seeded/<P>-<tag><i>/, recording the check outcome."""
+import json, re, subprocess, sys, os, shutil
+log = sys.argv[1] if len(sys.argv) > 1 else "/verif/run/mutants2.log"
+for line in open(log):
+    m = re.match(r"(C\d+) ([a-z0-9]*?)(\d) (\S+) CONFIRM (\{.*?\}) CHECK (.*)$", line.strip())
     if not m:
         continue
-    P, i, cj, chk = m.groups()
-    if os.path.exists("/verif/seeded/%s-m%s/meta.json" % (P, i)):
+    P, tag, i, mutout, cj, chk = m.groups()
+    dst = "/verif/seeded/%s-%s%s" % (P, tag, i)
+    if os.path.exists(dst + "/meta.json"):
         continue
     c = json.loads(cj)
-    ok = "passed" in c.get("suite_with_change", "") and " 0 failed" not in c["suite_with_change"] \
-        and re.search(r"(\d+) tests run: \1 passed", c["suite_with_change"]) \
+    ok = re.search(r"(\d+) tests run: \1 passed", c.get("suite_with_change", "")) \
         and c["demo_exit_with_change"] != 0 and c["demo_exit_without_change"] == 0
     if not ok:
-        print("NOT CONFIRMED", P, i, c)
+        print("NOT CONFIRMED", P, tag + i, c)
         continue
     caught = "exit=1" in chk and "VIOLATION" in chk
     nf = "no-failing-input-found" in chk
@@ -23,6 +25,19 @@ for line in open("/verif/run/mutants.log"):
                % (" ending no-failing-input-found" if nf else " with failing input", mm.group(1), mm.group(2))) if caught and mm \
         else "MISSED: " + chk[-200:]
     c["suite_with_change"] = re.sub(r"\s+", " ", c["suite_with_change"]).strip()
-    subprocess.check_call(["python3", "/verif/tools/keep_mutant.py", P, i, "/tmp/mutout/" + P, json.dumps(c), outcome])
-    if not caught:
-        print("MISSED", P, i)
+    os.makedirs(dst, exist_ok=True)
+    src = os.path.join(mutout, P)
+    shutil.copy(os.path.join(src, "patch%s.diff" % i), dst + "/patch.diff")
+    shutil.copy(os.path.join(src, "demo%s.rs" % i), dst + "/demo.rs")
+    notes = open(os.path.join(src, "notes.md")).read() if os.path.exists(os.path.join(src, "notes.md")) else ""
+    parts = re.split(r"\n(?=#+ )", notes)
+    mine = [p for p in parts if re.search(r"(patch|change|mutant|demo)\s*%s\b" % i, p.split("\n", 1)[0], re.I)]
+    meta = {"property": P,
+            "origin": "fresh sub-agent given only the property record%s and its own scratch worktree" % (
+                " plus summaries of the round-1 changes to avoid" if tag != "m" else ""),
+            "needs_to_manifest_and_commands (author's notes)": (mine[0] if mine else notes)[:6000],
+            "confirmed_by_coordinator": c,
+            "confirmation_cmd": "tools/confirm_mutant.sh <scratch worktree> patch.diff demo.rs  (suite with change: all pass; demo: fails with the change, passes without)",
+            "check_run": {"cmd": "tools/try_mutant.sh %s seeded/%s-%s%s/patch.diff" % (P, P, tag, i), "outcome": outcome}}
+    json.dump(meta, open(dst + "/meta.json", "w"), indent=1)
+    print(("kept " if caught else "MISSED ") + dst)
